@@ -127,7 +127,6 @@ Proof.
   - constructor; simpl; try xfield X; xstep X.
     + eexists. exact Hst.
     + right. xauto X.
-    + match goal with H : In _ (elected s) |- _ => pose proof (el_le V0 s _ _ _ F X H) end. lia.
     + match goal with |- lastTerm (log (st s ?n)) <= _ => pose proof (n_term s X n) end. lia.
     + match goal with H : In _ (acks s) |- _ => destruct (a_ok s X _ _ _ H) as [_ HK] end.
       split; [lia | exact HK].
